@@ -1,6 +1,6 @@
 (** C04 — exclusive gateway routes each token to exactly one deterministic branch.
     Model: Model/XorGw.v (non-default list, token-side probe, gateway-side decision, probe protocol). *)
-From BV Require Import Model.XorGw Proofs.XorGwProofs.
+From BV Require Import Model.XorGw Proofs.XorGwProofs Gen.Facts.
 
 (* A non-default flow is chosen only if it is the FIRST flow in the gateway's list order
    (default excluded) whose condition is true. *)
@@ -44,6 +44,25 @@ Theorem C04_one_decision : forall nd dflt t r j tb, tb t = None ->
   /\ fst (run nd dflt tb (Ask t :: repeat (Report t r) j ++ [Ask t; Report t r])) t = None.
 Proof. exact single_token. Qed.
 Print Assumptions C04_one_decision.
+
+(* THE TABLE AS THE CODE KEYS IT (handle_k / run_k: the entry of a token is found under a key made from its id, a
+   second request stores the channel of whoever made it). Keyed by the id itself -- the variant the sources show,
+   src_probing_key_is_the_id: the table is a map[id.Id] indexed with the flow's id as it stands -- the gateway does, for
+   every inbox sequence of any number of tokens, exactly what the model of the theorems above does ... *)
+Theorem C04_table_keyed_by_the_id_is_exact : forall nd dflt ms,
+  snd (run_k (if src_probing_key_is_the_id then (fun t => t) else (fun _ => 0)) nd dflt kempty ms) = snd (run nd dflt empty ms).
+Proof.
+  intros nd dflt ms. apply run_k_exact; [intros a b H; exact H|apply agree_empty].
+Qed.
+Print Assumptions C04_table_keyed_by_the_id_is_exact.
+
+(* ... a key made from less than the whole id does not: token 2's request is taken for token 1's second one, token 1's
+   report is answered to token 2, token 1 never hears of its decision and token 2 was never probed *)
+Theorem C04_independent_refuted_with_a_coarse_key :
+  snd (run_k (fun _ => 0) [0; 1] None kempty [Ask 1; Ask 2; Report 1 [1]]) = [OProbe 1; ODecide 2 (Flow 1)] /\
+  snd (run [0; 1] None empty [Ask 1; Ask 2; Report 1 [1]]) = [OProbe 1; OProbe 2; ORequeue 1 [1]].
+Proof. exact refuted_coarse_key. Qed.
+Print Assumptions C04_independent_refuted_with_a_coarse_key.
 
 Example C04_nonvacuous :
   xor_choose [false; true; true; true] (Some 1) = Flow 2 /\
